@@ -114,11 +114,93 @@ func streamTypes(p *core.Prog, iface, must string) []*types.Named {
 	}
 	var out []*types.Named
 	for _, nt := range p.Implementers(it) {
-		if declaredMethod(p, nt, must) != nil {
+		if declaredMethod(p, nt, must) != nil && !isForwardingWrapper(p, nt, it) {
 			out = append(out, nt)
 		}
 	}
 	return out
+}
+
+// isForwardingWrapper: every method of iface that nt declares does nothing but
+// call the same-named method of one embedded/only field of its receiver with
+// its own parameters and return the result (runtime.KeepAlive of the receiver
+// aside). Such a type has no stream state of its own: it is seen through.
+func isForwardingWrapper(p *core.Prog, nt *types.Named, iface types.Type) bool {
+	it, ok := iface.Underlying().(*types.Interface)
+	if !ok {
+		return false
+	}
+	st, ok := nt.Underlying().(*types.Struct)
+	if !ok || st.NumFields() != 1 {
+		return false
+	}
+	n := 0
+	for i := 0; i < it.NumMethods(); i++ {
+		name := it.Method(i).Name()
+		m := declaredMethod(p, nt, name)
+		if m == nil {
+			continue // promoted: forwards by construction
+		}
+		n++
+		if len(m.Params) == 0 {
+			return false
+		}
+		var calls []ssa.Instruction
+		other := false
+		core.Instrs(m, func(in ssa.Instruction) {
+			switch in.(type) {
+			case *ssa.Store, *ssa.Send, *ssa.Select, *ssa.Go, *ssa.MapUpdate:
+				// a spill of the receiver or of a result is harmless; anything else is behaviour of its own
+				if s, isS := in.(*ssa.Store); isS {
+					if _, isAl := s.Addr.(*ssa.Alloc); isAl {
+						return
+					}
+				}
+				other = true
+				return
+			}
+			cc := core.CallOf(in)
+			if cc == nil {
+				return
+			}
+			if core.InfoOf(cc).Is("runtime.KeepAlive") {
+				return
+			}
+			calls = append(calls, in)
+		})
+		if other || len(calls) != 1 {
+			return false
+		}
+		cc := core.CallOf(calls[0])
+		ci := core.InfoOf(cc)
+		if ci.Name != name {
+			return false
+		}
+		recv := cc.Value
+		args := cc.Args
+		if !cc.IsInvoke() {
+			if len(cc.Args) == 0 {
+				return false
+			}
+			recv, args = cc.Args[0], cc.Args[1:]
+		}
+		base, _, isF := core.FieldOf(core.Strip(recv))
+		if !isF || core.ResolveFree(core.Strip(base)) != ssa.Value(m.Params[0]) {
+			// the receiver may have been spilled for the deferred KeepAlive
+			if !isF || !core.OriginIs(base, func(o ssa.Value) bool { return core.ResolveFree(core.Strip(o)) == ssa.Value(m.Params[0]) }) {
+				return false
+			}
+		}
+		if len(args) != len(m.Params)-1 {
+			return false
+		}
+		for j, a := range args {
+			if core.ResolveFree(core.Strip(a)) != ssa.Value(m.Params[j+1]) && !core.OriginIs(a, func(o ssa.Value) bool { return core.ResolveFree(core.Strip(o)) == ssa.Value(m.Params[j+1]) }) {
+				return false
+			}
+		}
+	}
+	return n > 0
 }
 
 func pkgSuffixOf(nt *types.Named) string {
